@@ -82,7 +82,7 @@ func VerifC14_claim_deposit() {
 		must(k.DepositIdClaimedMap.Set(ctx, depositId, types.DepositClaimed{Claimed: true}))
 	}
 	// checkpoint history: up to two checkpoints with thresholds
-	nCp := ndLen("ncheckpoints", 2)
+	nCp := ndLen("ncheckpoints", 2+ndTier())
 	cpTs := make([]uint64, nCp)
 	cpThr := make([]uint64, nCp)
 	for i := 0; i < nCp; i++ {
